@@ -37,6 +37,9 @@ def verify(reg, quals, verbose=True, cex_bound=None, **kw):
             ex = FnExec(reg, q, th); allobs += ex.run()
         except (Unsupported, ContractDrift) as e:
             undecided.append((q, f"{type(e).__name__}: {e}"))
+        except (StopIteration, KeyError, AttributeError, TypeError, IndexError, z3.Z3Exception) as e:
+            # the function left the subset in a way the executor did not anticipate: undecided, never a verdict
+            undecided.append((q, f"engine could not process the function: {type(e).__name__}: {e}"))
     gen = time.time() - t0
     discharge_all(allobs, **kw)
     if verbose:
